@@ -104,15 +104,15 @@ def add_py_writer(ck, pid, lmax=3):
             g = [z3.Int("g%d" % i) for i in range(L)]
             b = [z3.Int("b%d" % i) for i in range(L)]
             hyp = base + [x >= 0 for x in g + b] + [x < U63 for x in g + b]
-            calls = []
-
             def mk():
-                del calls[:]
+                calls = []      # fresh per run: outcomes keep their own call record
                 mod.np = fake_np()
                 mod._py_rf_write_hdf5 = types.SimpleNamespace(rf_block_write=ext(calls, "rf_block_write"), rf_write=ext(calls, "rf_write"))
                 s = mk_self(calls)
                 arr = types.SimpleNamespace(shape=(pysym.SymInt(N),))
-                return (s, arr, SymArr([pysym.SymInt(x) for x in g]), SymArr([pysym.SymInt(x) for x in b])), {}, (s, calls)
+                GA, BA = SymArr([pysym.SymInt(x) for x in g]), SymArr([pysym.SymInt(x) for x in b])
+                s._given = (arr, GA, BA)
+                return (s, arr, GA, BA), {}, (s, calls)
             outs = pysym.explore(W.rf_write_blocks, mk, hyp, max_paths=3000)
             func = "digital_rf_hdf5.DigitalRFWriter.rf_write_blocks"
             WF = wf0(g, b, L, N, cursor)
@@ -133,6 +133,9 @@ def add_py_writer(ck, pid, lmax=3):
                     # accepted: must have been well formed (malformed => rejected before the extension is called)
                     ck.add([Obl("py.blocks.accept_only_wellformed", func, 0, oc.pc, WF, kind="post", meta=meta)])
                     ck.struct("py.blocks.extension_called_once", len(called) == 1 and called[0][0] == "rf_block_write", "calls: %s" % [c[0] for c in called], {"attr": "L=%d" % L})
+                    # the extension receives the writer handle, the data and the two index arrays as given (after the casts, identity here)
+                    okargs = len(called) == 1 and len(called[0]) == 5 and called[0][1] is s._channelObj and all(x is y for x, y in zip(called[0][2:], s._given))
+                    ck.struct("py.blocks.extension_args", okargs, "rf_block_write must receive (channel, arr, global_sample_arr, block_sample_arr)", {"attr": "L=%d" % L})
                     hy = oc.pc + [ext_post]
                     ck.add([Obl("py.blocks.counters", func, 0, hy,
                                 z3.And(pysym.Zt(s._next_avail_sample) == ret, pysym.Zt(s._total_samples_written) == tw + N,
@@ -143,10 +146,8 @@ def add_py_writer(ck, pid, lmax=3):
         # ------------------------------------------------------------ rf_write
         ns = z3.Int("next_sample")
         for given in (True, False):
-            calls = []
-
             def mk2():
-                del calls[:]
+                calls = []
                 mod.np = fake_np()
                 mod._py_rf_write_hdf5 = types.SimpleNamespace(rf_block_write=ext(calls, "rf_block_write"), rf_write=ext(calls, "rf_write"))
                 s = mk_self(calls)
